@@ -63,7 +63,7 @@ class Float(float, AnyAtomicType):
             return super().__new__(cls, 'INF')
         elif _value < -3.4028235E38:
             return super().__new__(cls, '-INF')
-        elif -1e-37 < _value < 1e-37:
+        elif -7.006492321624085e-46 <= _value <= 7.006492321624085e-46:  # 2**-150: rounds to zero
             return super().__new__(cls, -0.0 if str(_value).startswith('-') else 0.0)
         return _value
 
